@@ -15,12 +15,21 @@
 (*     file and only then appends.  So max-1 archived files + the current. *)
 (*     A restart is therefore a no-op on the abstract state; what matters  *)
 (*     is the directory it finds.                                          *)
+(*     Fault dimension (RollFaults): for a while the environment makes the *)
+(*     rename of the current file fail (the file is a mount point, is      *)
+(*     append-only, ...) while appending still works.  roll_if_needed()?   *)
+(*     then returns the error BEFORE anything is appended: the write is    *)
+(*     refused and nothing grows (LogWriteRollFails).                      *)
 (*  EventDir    proxy_agent_shared/src/telemetry/event_logger.rs start()   *)
 (*     timer tick: queue empty -> nothing; else the queue is drained, the  *)
 (*     directory is listed and, when files >= cap, the drained events are  *)
 (*     dropped; otherwise ONE new file holds all of them.  The queue is    *)
 (*     process memory (lost on restart); the telemetry reader removes      *)
-(*     files independently.                                                *)
+(*     files independently.  event_logger::stop() sets a flag; the loop,   *)
+(*     at its next wake-up, closes the queue, drains what is queued        *)
+(*     SUBJECT TO THE SAME CAP CHECK (one file or dropped) and the task    *)
+(*     ends (EvStopIdle / EvStopWrite / EvStopDrop); from then on          *)
+(*     write_event fails on the closed queue until the process restarts.   *)
 (*  RuleDumps   proxy_agent/src/proxy/authorization_rules.rs write_all     *)
 (*     list AuthorizationRules_*.json sorted by name (= by time, names     *)
 (*     carry the UTC time), remove the (count - max + 1) first when        *)
@@ -41,6 +50,7 @@ CONSTANTS Machine,      \* "log" | "event" | "dumps" | "all"
           PreSizes,     \* ... of these sizes
           PreCur,       \* ... and no current file or one of one of these sizes
           CrashPoints,  \* BOOLEAN: the process may also be killed between the system calls of one write
+          RollFaults,   \* BOOLEAN: the environment may make the archive rename fail for a while
           \* --- event directory
           Cap,          \* max_event_file_count
           MaxPush,      \* events pushed at once 1..MaxPush
@@ -59,9 +69,11 @@ VARIABLES
   rolled,    \* ghost: a roll happened since the directory was found
   logLegal,  \* ghost: the directory found at start could have been left by this logger (room for the current file)
   debt,      \* ghost (CrashPoints only): kills in the middle of archive_file since the last completed roll
+  rollFails, \* environment: fs::rename of the current file fails at present (appending still works)
   \* event directory
   evFiles,   \* number of files in the event directory
   evQueue,   \* events waiting in the in-memory queue
+  evRun,     \* the event logger task is running (FALSE after stop() was handled, until the process restarts)
   evLegal,   \* ghost: the directory found at start held <= Cap files
   \* rule dumps
   dumps,     \* ids of the dumps on disk, oldest first; ids grow with age order of creation
@@ -69,8 +81,8 @@ VARIABLES
   dLegal,    \* ghost: the directory found at start held <= MaxDumps dumps
   dWritten   \* ghost: write_all ran at least once
 
-logVars  == <<arch, cur, lw, rolled, logLegal, debt>>
-evVars   == <<evFiles, evQueue, evLegal>>
+logVars  == <<arch, cur, lw, rolled, logLegal, debt, rollFails>>
+evVars   == <<evFiles, evQueue, evRun, evLegal>>
 dumpVars == <<dumps, nextId, dLegal, dWritten>>
 vars     == <<logVars, evVars, dumpVars>>
 
@@ -111,12 +123,12 @@ LogInit ==
             /\ cur \in PreCur \cup {-1}
        ELSE arch = <<>> /\ cur = -1
   /\ lw = IF cur < Limit THEN 0 ELSE cur - Limit + 1   \* the smallest last write that explains the size found
-  /\ rolled = FALSE /\ debt = 0
+  /\ rolled = FALSE /\ debt = 0 /\ rollFails = FALSE
   /\ logLegal = (Len(arch) + 1 <= MaxCount)
 
 EvInit ==
   /\ IF On("event") THEN evFiles \in 0..PreEv ELSE evFiles = 0
-  /\ evQueue = 0
+  /\ evQueue = 0 /\ evRun = TRUE
   /\ evLegal = (evFiles <= Cap)
 
 DumpInit ==
@@ -139,40 +151,59 @@ ShouldRoll == CurOpened >= Limit                 \* `file_length >= self.max_log
 Renamed == Append(arch, CurOpened)               \* fs::rename(current, name.<utc>-<nanos>.log); the current file is gone
 Trimmed == Drop(Renamed, Excess(Len(Renamed), MaxCount))   \* get_log_files() + removal loop (oldest = first by name)
 
-LogWriteNoRoll(n) ==
+LogWriteNoRoll(n) ==         \* appending works whether or not the rename would
   /\ LogOnly /\ ~ShouldRoll
   /\ cur' = CurOpened + n /\ lw' = n
-  /\ UNCHANGED <<arch, rolled, logLegal, debt>>
+  /\ UNCHANGED <<arch, rolled, logLegal, debt, rollFails>>
 
 LogWriteRollKeep(n) ==       \* roll, nothing to delete yet
-  /\ LogOnly /\ ShouldRoll /\ Excess(Len(Renamed), MaxCount) = 0
+  /\ LogOnly /\ ShouldRoll /\ ~rollFails /\ Excess(Len(Renamed), MaxCount) = 0
   /\ arch' = Renamed /\ cur' = n /\ lw' = n /\ rolled' = TRUE /\ debt' = 0
-  /\ UNCHANGED logLegal
+  /\ UNCHANGED <<logLegal, rollFails>>
 
 LogWriteRollTrim(n) ==       \* roll and delete the oldest archived files
-  /\ LogOnly /\ ShouldRoll /\ Excess(Len(Renamed), MaxCount) > 0
+  /\ LogOnly /\ ShouldRoll /\ ~rollFails /\ Excess(Len(Renamed), MaxCount) > 0
   /\ arch' = Trimmed /\ cur' = n /\ lw' = n /\ rolled' = TRUE /\ debt' = 0
-  /\ UNCHANGED logLegal
+  /\ UNCHANGED <<logLegal, rollFails>>
+
+\* `self.roll_if_needed()?` with archive_file's fs::rename failing: the error is returned before open_file/append,
+\* the write of n is REFUSED and every file keeps its size
+LogWriteRollFails(n) ==
+  /\ LogOnly /\ ShouldRoll /\ rollFails
+  /\ UNCHANGED logVars
+
+\* the environment: the fault appears (on an existing current file) and goes away
+LogFaultOn ==
+  /\ LogOnly /\ RollFaults /\ ~rollFails /\ cur >= 0
+  /\ rollFails' = TRUE
+  /\ UNCHANGED <<arch, cur, lw, rolled, logLegal, debt>>
+
+LogFaultOff ==
+  /\ LogOnly /\ rollFails
+  /\ rollFails' = FALSE
+  /\ UNCHANGED <<arch, cur, lw, rolled, logLegal, debt>>
 
 \* Crash points (only with CrashPoints): the process is killed between two system calls of one write.
 \* after open_file / after the re-creation that follows a roll, before the append
 LogKillBeforeAppend ==
-  /\ LogOnly /\ CrashPoints
+  /\ LogOnly /\ CrashPoints /\ (ShouldRoll => ~rollFails)
   /\ IF ShouldRoll THEN arch' = Trimmed /\ cur' = 0 /\ rolled' = TRUE /\ debt' = 0
                    ELSE arch' = arch /\ cur' = CurOpened /\ rolled' = rolled /\ debt' = debt
   /\ lw' = IF ShouldRoll \/ cur < 0 THEN 0 ELSE lw
-  /\ UNCHANGED logLegal
+  /\ UNCHANGED <<logLegal, rollFails>>
 \* after the rename and j of the removals, before the current file is re-created
 LogKillInArchive(j) ==
-  /\ LogOnly /\ CrashPoints /\ ShouldRoll
+  /\ LogOnly /\ CrashPoints /\ ShouldRoll /\ ~rollFails
   /\ j \in 0..Excess(Len(Renamed), MaxCount)
   /\ arch' = Drop(Renamed, j) /\ cur' = -1 /\ lw' = 0
   /\ debt' = IF j < Excess(Len(Renamed), MaxCount) THEN debt + 1 ELSE debt
-  /\ UNCHANGED <<rolled, logLegal>>
+  /\ UNCHANGED <<rolled, logLegal, rollFails>>
 
 LogNext == \/ \E n \in 1..MaxWrite : \/ LogWriteNoRoll(n)
                                      \/ LogWriteRollKeep(n)
                                      \/ LogWriteRollTrim(n)
+                                     \/ LogWriteRollFails(n)
+           \/ LogFaultOn \/ LogFaultOff
            \/ LogKillBeforeAppend
            \/ \E j \in 0..(PreArch + 2) : LogKillInArchive(j)
 
@@ -181,31 +212,60 @@ LogNext == \/ \E n \in 1..MaxWrite : \/ LogWriteNoRoll(n)
 
 EvOnly == On("event") /\ UNCHANGED <<logVars, dumpVars>>
 EvPush(k) ==                 \* write_event x k (the queue is bounded; the model stays below the bound)
-  /\ EvOnly /\ evQueue + k <= QueueBound
+  /\ EvOnly /\ evRun /\ evQueue + k <= QueueBound
   /\ evQueue' = evQueue + k
-  /\ UNCHANGED <<evFiles, evLegal>>
+  /\ UNCHANGED <<evFiles, evRun, evLegal>>
+
+EvPushClosed(k) ==           \* write_event after the stop: EVENT_QUEUE.push fails (closed), the events are discarded
+  /\ EvOnly /\ ~evRun /\ k \in 1..MaxPush
+  /\ UNCHANGED evVars
 
 EvTickIdle ==                \* `if EVENT_QUEUE.is_empty() { continue; }`
-  /\ EvOnly /\ evQueue = 0
+  /\ EvOnly /\ evRun /\ evQueue = 0
   /\ UNCHANGED evVars
 
 EvTickWrite ==               \* drained, files < cap: ONE new file <nanos>.json
-  /\ EvOnly /\ evQueue > 0 /\ evFiles < Cap
+  /\ EvOnly /\ evRun /\ evQueue > 0 /\ evFiles < Cap
   /\ evFiles' = evFiles + 1 /\ evQueue' = 0
-  /\ UNCHANGED evLegal
+  /\ UNCHANGED <<evRun, evLegal>>
 
 EvTickDrop ==                \* drained, `files.len() >= max_event_file_count`: the events are dropped
-  /\ EvOnly /\ evQueue > 0 /\ evFiles >= Cap
+  /\ EvOnly /\ evRun /\ evQueue > 0 /\ evFiles >= Cap
   /\ evQueue' = 0
+  /\ UNCHANGED <<evFiles, evRun, evLegal>>
+
+EvTickStopped ==             \* time passes after the task has ended: nothing
+  /\ EvOnly /\ ~evRun
+  /\ UNCHANGED evVars
+
+\* event_logger::stop() and the loop's next wake-up: `shutdown.load()` -> EVENT_QUEUE.close(); then the SAME body as
+\* a periodic tick (empty -> continue; drain; cap check -> drop, or one file); back at the top of the loop the closed
+\* queue ends the task.
+EvStopIdle ==
+  /\ EvOnly /\ evRun /\ evQueue = 0
+  /\ evRun' = FALSE
+  /\ UNCHANGED <<evFiles, evQueue, evLegal>>
+
+EvStopWrite ==               \* the last events go to ONE new file: only below the cap
+  /\ EvOnly /\ evRun /\ evQueue > 0 /\ evFiles < Cap
+  /\ evFiles' = evFiles + 1 /\ evQueue' = 0 /\ evRun' = FALSE
+  /\ UNCHANGED evLegal
+
+EvStopDrop ==                \* at or above the cap the last events are dropped like any others
+  /\ EvOnly /\ evRun /\ evQueue > 0 /\ evFiles >= Cap
+  /\ evQueue' = 0 /\ evRun' = FALSE
   /\ UNCHANGED <<evFiles, evLegal>>
+
+EvStop == EvStopIdle \/ EvStopWrite \/ EvStopDrop
 
 EvReaderRemove(k) ==         \* the telemetry reader sent k files and removed them
   /\ EvOnly /\ k \in 1..evFiles
   /\ evFiles' = evFiles - k
-  /\ UNCHANGED <<evQueue, evLegal>>
+  /\ UNCHANGED <<evQueue, evRun, evLegal>>
 
-EvNext == \/ \E k \in 1..MaxPush : EvPush(k)
-          \/ EvTickIdle \/ EvTickWrite \/ EvTickDrop
+EvNext == \/ \E k \in 1..MaxPush : EvPush(k) \/ EvPushClosed(k)
+          \/ EvTickIdle \/ EvTickWrite \/ EvTickDrop \/ EvTickStopped
+          \/ EvStop
           \/ \E k \in 1..(PreEv + 1) : EvReaderRemove(k)
 
 -----------------------------------------------------------------------------
@@ -227,9 +287,11 @@ DumpWriteTrim ==
 DumpNext == DumpWriteKeep \/ DumpWriteTrim
 
 -----------------------------------------------------------------------------
-\* Restart of the process: the rolling logger and write_all keep no state; the event queue is memory.
+\* Restart of the process: the rolling logger and write_all keep no state; the event queue is memory and the event
+\* logger task is started again (SHUT_DOWN / EVENT_QUEUE are statics of the new process).  Whether the rename fault
+\* is still there is the environment's business (LogFaultOff may happen at any time).
 Restart ==
-  /\ evQueue' = 0
+  /\ evQueue' = 0 /\ evRun' = TRUE
   /\ UNCHANGED <<logVars, evFiles, evLegal, dumpVars>>
 
 Next == LogNext \/ EvNext \/ DumpNext \/ Restart
@@ -243,7 +305,8 @@ Bounded == nextId <= MaxIds + 1 /\ debt <= 2
 \* Invariants (after EVERY step) and step properties.
 
 TypeOK == /\ arch \in Seq(Nat) /\ cur \in Int /\ cur >= -1 /\ lw \in Nat
-          /\ evFiles \in Nat /\ evQueue \in 0..QueueBound
+          /\ rollFails \in BOOLEAN /\ (rollFails => RollFaults /\ cur >= 0)
+          /\ evFiles \in Nat /\ evQueue \in 0..QueueBound /\ evRun \in BOOLEAN
           /\ dumps \in Seq(Nat) /\ nextId \in Nat
 
 \* C19, rolling log, for directories an earlier run with the same settings can have left
@@ -261,10 +324,15 @@ LogCrashRecovers == [][(debt' = 0 /\ debt > 0) => P_LogCount(arch', cur', MaxCou
 \* the size: the implementation checks `>=` before appending, so the bound is even strict
 LogSizeBound == cur >= 0 => P_LogSize(cur, lw, Limit)
 LogSizeStrict == cur >= 0 => cur < Limit + lw
+\* while the roll cannot be done, a file at or over the limit takes nothing more (the write is refused)
+LogNoGrowthWhileRollFails == [][(rollFails /\ rollFails' /\ cur >= Limit) => (cur' = cur /\ arch' = arch)]_vars
 \* event directory
 EvCountBound == evLegal => P_EvCount(evFiles, Cap)
 EvDropAtCap == [][P_EvNoGrowthAtCap(evFiles, evFiles', Cap)]_vars
 EvOneFilePerTick == [][evFiles' <= evFiles + 1]_vars
+\* once the task has ended the logger adds nothing (only the reader changes the directory) and holds no events
+EvStoppedIsQuiet == [][(~evRun /\ ~evRun') => evFiles' <= evFiles]_vars
+EvStoppedQueueEmpty == ~evRun => evQueue = 0
 \* rule dumps
 DumpCountBound == (dLegal \/ dWritten) => P_DumpCount(dumps, MaxDumps)
 DumpOldestFirst == [][P_RemovedAreOldest(dumps, dumps')]_vars
